@@ -1169,7 +1169,10 @@ class Models:
         if isinstance(v, Obj):
             return ("id", "obj", v.oid)
         if isinstance(v, Opaque):
-            return SpecFn(None, "id", meta={"idref": v.ref})
+            # identity of a pre-existing object: keyed by its reference term (two syntactically different reference
+            # terms are treated as different objects; aliasing of children -- x*x with one shared node -- is the
+            # case the bounded stand-in covers)
+            return ("id", "ref", str(v.ref))
         raise Unsupported("id()")
 
     def b_type(self, ip, a, kw, node):
